@@ -161,6 +161,12 @@ def m_bounds(explicit, mode, glen, window, child_spans):
     return None
 
 
+def setup(ctx):
+    from bcv import core
+
+    core.codon_storm(ctx)
+
+
 def selftest():
     from bcv.core import HarnessError
 
